@@ -20,6 +20,9 @@ type Entry struct {
 	Name   string   `json:"name"`   // file name
 	Mode   uint32   `json:"mode"`   // permission bits
 	Config string   `json:"config"` // valid-json valid-yaml valid-schedule exit1 badtype badversion unknownfield garbage
+	// Link: the entry is a symbolic link to an executable file kept in a hidden directory (..data/), the layout of a
+	// ConfigMap or Secret volume
+	Link bool `json:"link,omitempty"`
 }
 
 type Case struct {
@@ -82,6 +85,10 @@ func gen(t *rapid.T) Case {
 		if allValid && !isValid(e.Config) {
 			e.Config = "valid-json"
 		}
+		if rapid.IntRange(0, 5).Draw(t, "link") == 0 {
+			e.Link = true
+			e.Mode = 0o755
+		}
 		p := filepath.Join(append(append([]string{}, e.Dir...), e.Name)...)
 		if seen[p] {
 			continue
@@ -132,9 +139,32 @@ func runCase(c Case) (ev.Info, error) {
 	var expected []string
 	kind := map[string]string{}
 	excludedExec := 0
-	for _, e := range c.Entries {
+	links := 0
+	for i, e := range c.Entries {
 		txt, code := configText(e.Config)
-		if err := tree.AddHook(rel(e), os.FileMode(e.Mode), vh.Script{Config: txt, ConfigExit: code}); err != nil {
+		if e.Link {
+			target := fmt.Sprintf("..data/%d/%s", i, e.Name)
+			if err := tree.AddHook(target, 0o755, vh.Script{Config: txt, ConfigExit: code}); err != nil {
+				return info, fmt.Errorf("harness: %v", err)
+			}
+			lp := filepath.Join(root, rel(e))
+			if err := os.MkdirAll(filepath.Dir(lp), 0o755); err != nil {
+				return info, fmt.Errorf("harness: %v", err)
+			}
+			rt, err := filepath.Rel(filepath.Dir(lp), filepath.Join(root, target))
+			if err != nil {
+				return info, fmt.Errorf("harness: %v", err)
+			}
+			if err := os.Symlink(rt, lp); err != nil {
+				return info, fmt.Errorf("harness: %v", err)
+			}
+			if err := tree.SetScript(rel(e), vh.Script{Config: txt, ConfigExit: code}); err != nil {
+				return info, fmt.Errorf("harness: %v", err)
+			}
+			if isHook(e) {
+				links++
+			}
+		} else if err := tree.AddHook(rel(e), os.FileMode(e.Mode), vh.Script{Config: txt, ConfigExit: code}); err != nil {
 			return info, fmt.Errorf("harness: %v", err)
 		}
 		kind[rel(e)] = e.Config
@@ -154,6 +184,9 @@ func runCase(c Case) (ev.Info, error) {
 	}
 	if excludedExec >= 1 && len(expected) >= 2 {
 		info.NonTrivial = true
+	}
+	if links > 0 {
+		info.Labels = append(info.Labels, "symlinked-hook")
 	}
 	if c.RootName != "hooks" {
 		info.Labels = append(info.Labels, "root:"+c.RootName)
@@ -212,7 +245,7 @@ func runCase(c Case) (ev.Info, error) {
 	return info, nil
 }
 
-const rule = "generated hook directory trees (1-12 files, depth <= 4, directory names incl. lib, library, lib.d, hidden, names with space, dot, dash and '!', file names with excluded and near-excluded extensions and dot prefixes, 9 permission patterns, root directory occasionally named lib/.hooks/hooks.d), every file a scripted hook with valid (json, yaml, schedule) or failing (exit 1, wrong type, unknown version, unknown field, garbage) --config; real hook.Manager.Init; oracle: independent predicate over the generated description, sorted names, invocation log (once each, from the hooks directory, lexical order, stop at first failure), error names a failing hook. Non-trivial: >= 1 excluded executable and >= 2 hooks. Distinct = distinct trees."
+const rule = "generated hook directory trees (1-12 files, depth <= 4, directory names incl. lib, library, lib.d, hidden, names with space, dot, dash and '!', file names with excluded and near-excluded extensions and dot prefixes, 9 permission patterns, 1 file in 6 a symbolic link to an executable file kept under a hidden ..data/ directory as in a ConfigMap volume, root directory occasionally named lib/.hooks/hooks.d), every file a scripted hook with valid (json, yaml, schedule) or failing (exit 1, wrong type, unknown version, unknown field, garbage) --config; real hook.Manager.Init; oracle: independent predicate over the generated description, sorted names, invocation log (once each, from the hooks directory, lexical order, stop at first failure), error names a failing hook. Non-trivial: >= 1 excluded executable and >= 2 hooks. Distinct = distinct trees."
 
 func TestDiscovery(t *testing.T) {
 	ev.Main(t, ev.Spec[Case]{Property: "C20", Part: "discovery", Rule: rule, Gen: gen, Run: runCase})
